@@ -151,7 +151,9 @@ class SegmentWorld(World):
         if not strict_full:
             kinds += ['add_new', 'add_helper', 'setidx_append']
         if reps:
-            kinds += ['setidx', 'setidx', 'del', 'delidx', 'remove']
+            kinds += ['setidx', 'setidx', 'del', 'delidx', 'remove', 'setidx_view']
+            if not strict_full:
+                kinds += ['insert_view']
         if len(reps) >= 2 and allow_copy_elem:
             kinds += ['setidx_own']
         if self.model[other][name]:
@@ -166,6 +168,10 @@ class SegmentWorld(World):
             return ['set', el, name, self.spelling(name), self.value_for(name)]
         if k == 'setidx':
             return ['setidx', el, name, rng.randrange(len(reps)), self.value_for(name)]
+        if k in ('setidx_view', 'insert_view'):
+            # the same edits through the children view: children[j] = text / children.insert(j, field), j being the list
+            # position of the addressed repetition
+            return [k, el, name, rng.randrange(len(reps)), self.value_for(name)]
         if k == 'setidx_append':
             return ['setidx', el, name, len(reps), self.value_for(name)]
         if k in ('add_new', 'add_helper'):
@@ -216,6 +222,20 @@ class SegmentWorld(World):
         elif k == 'setidx_own':
             # a repetition assigned over another repetition of the same parent: copied by value
             self.guard(lambda: getattr(el, op[2]).__setitem__(op[3], getattr(el, op[2])[op[4]]))
+        elif k in ('setidx_view', 'insert_view'):
+            target = el.children.indexes[op[2]][op[3]]
+            j = [id(c) for c in el.children.list].index(id(target))
+            if k == 'setidx_view':
+                self.guard(lambda: el.children.__setitem__(j, op[4]))
+            else:
+                f = core.Field(op[2], version=self.version, validation_level=self.level)
+                self.detached.append(f)
+                if self.ec is not None:
+                    self.guard(lambda: el.children.insert(j, f))
+                    self.guard(lambda: setattr(f, 'value', op[4]))
+                else:
+                    self.guard(lambda: setattr(f, 'value', op[4]))
+                    self.guard(lambda: el.children.insert(j, f))
         else:
             raise KeyError(k)
 
@@ -225,6 +245,12 @@ class SegmentWorld(World):
         name = op[2]
         if k == 'setidx_own':
             m[name][op[3]] = m[name][op[4]]
+            return
+        if k == 'setidx_view':
+            m[name][op[3]] = op[4]
+            return
+        if k == 'insert_view':
+            m[name].insert(op[3], op[4])
             return
         if k == 'set':
             if m[name]:
@@ -633,9 +659,11 @@ def make_world(kind, version, level, rng, **kw):
 FAULTS = ('f_wrong_class', 'f_wrong_name', 'f_foreign_elem', 'f_level_add', 'f_level_set', 'f_version_add',
           'f_version_set', 'f_card', 'f_badvalue', 'f_del_absent', 'f_delidx_absent', 'f_dtchange', 'f_value_wrongname',
           'f_children_bad', 'f_settype', 'f_value_badleaf', 'f_deep_level_set', 'f_deep_version_set',
-          'f_parent_ctor_level', 'f_parent_ctor_version', 'f_parent_assign_level', 'f_parent_assign_version')
+          'f_parent_ctor_level', 'f_parent_ctor_version', 'f_parent_assign_level', 'f_parent_assign_version',
+          'f_children_keep_bad', 'f_proxy_badvalue', 'f_dtobject_complex')
 WILD = ('w_reattach', 'w_add_twice', 'w_set_own', 'w_read', 'w_parent_ctor', 'w_del_view', 'w_pop', 'w_children_assign',
-        'w_value', 'w_setitem_view', 'w_deep_write', 'w_detached_readd', 'w_parent_assign')
+        'w_value', 'w_setitem_view', 'w_deep_write', 'w_detached_readd', 'w_parent_assign', 'w_insert_view',
+        'w_dtobject', 'w_setitem_view_elem', 'w_read_beyond')
 
 
 class Skip(Exception):
@@ -856,7 +884,82 @@ def apply_wild(world, op):
                 raise Skip()
             world.detached.append(offered)
             G(lambda: setattr(offered, 'parent', el))
+    elif k == 'f_children_keep_bad':
+        # the current children plus one the element must refuse, assigned as a whole
+        if world.kind == 'segment':
+            bad = core.Field('MSH_3' if world.seg != 'MSH' else 'PID_3', version=world.version,
+                             validation_level=world.level)
+        elif world.kind == 'field':
+            bad = core.Component('MSG_1' if world.row.datatype != 'MSG' else 'CX_1', version=world.version,
+                                 validation_level=world.level)
+        elif world.kind == 'component':
+            bad = core.Field('PID_1', version=world.version, validation_level=world.level)
+        else:
+            raise Skip()
+        if not len(el.children):
+            raise Skip()
+        world.detached.append(bad)
+        offered = bad
+        G(lambda: setattr(el, 'children', list(el.children.list) + [bad]))
+    elif k == 'f_proxy_badvalue':
+        # a value the leaf must refuse (STRICT), assigned through the proxy of a child that does not exist yet
+        if world.kind != 'segment':
+            raise Skip()
+        rows = [r for r in gen.usable_rows(world.version, world.seg)
+                if not el.children.indexes.get(r.name) and r.name in world.names]
+        if not rows:
+            raise Skip()
+        r = rows[i % len(rows)]
+        bad = 'not a number' if r.datatype in ('NM', 'SI', 'DT', 'DTM', 'TM') else 'x' * 70000
+        G(lambda: setattr(getattr(el, r.name.lower()), 'value', bad))
+    elif k in ('f_dtobject_complex', 'w_dtobject'):
+        # a base datatype object assigned by name: accepted where the child is of a base datatype, refused where it is complex
+        from hl7apy.factories import datatype_factory
+        if world.kind == 'segment':
+            rws = [world.rows[n] for n in world.names]
+        elif world.kind in ('field', 'component'):
+            rws = [world.comps[n] for n in world.names]
+        else:
+            raise Skip()
+        want_leaf = (k == 'w_dtobject')
+        cands = [r for r in rws if (r.kind == 'leaf' and r.datatype in ('ST', 'ID', 'IS', 'TX', 'FT')) == want_leaf
+                 and r.datatype != 'varies']
+        if not cands:
+            raise Skip()
+        r = cands[i % len(cands)]
+        try:
+            obj = datatype_factory(r.datatype if want_leaf else 'ST', val.replace('|', ''), world.version, world.level)
+        except Exception:
+            raise Skip()
+        G(lambda: setattr(el, r.name.lower(), obj))
     # ---- wild (usually accepted)
+    elif k == 'w_insert_view':
+        # MutableSequence.insert on the children view: the new child goes to that position, also among its namesakes
+        offered = _new_child(world, name, val)
+        world.detached.append(offered)
+        lo = 1 if world.kind == 'message' else 0
+        j = lo + i % (len(el.children) - lo + 1)
+        G(lambda: el.children.insert(j, offered))
+    elif k == 'w_setitem_view_elem':
+        # children[j] = <element of the same name> replaces the j-th child
+        if len(el.children):
+            j = i % len(el.children)
+            ch = el.children.list[j]
+            if ch.name in world.names:
+                offered = _new_child(world, ch.name, val)
+                world.detached.append(offered)
+                G(lambda: el.children.__setitem__(j, offered))
+    elif k == 'w_read_beyond':
+        # reads of a field number beyond the highest one present (open-ended segments accept any number)
+        if world.kind != 'segment':
+            raise Skip()
+        hi = max([int(c.name.rsplit('_', 1)[1]) for c in el.children.list if c.name and '_' in c.name] + [0])
+        nm = '%s_%d' % (world.seg.lower(), hi + 1 + i)
+        try:
+            p = G(lambda: getattr(el, nm))
+            G(lambda: (len(p), repr(p), list(p), p.value))
+        except Exception:
+            pass
     elif k == 'w_reattach':
         src = reps(other)
         if src:
